@@ -19,6 +19,7 @@ import time
 import traceback
 
 HERE = os.path.dirname(os.path.dirname(os.path.abspath(__file__)))
+OUT = os.environ.get('HXVERIF_OUT') or HERE    # evidence/ and replays/ (redirected when checking a scratch tree)
 MAX_STORED_FAILS = 60        # per work item
 MAX_REPORTED = 25            # VIOLATION lines printed
 WALL_GUARD_S = int(os.environ.get('HXVERIF_WALL_GUARD', '300'))
@@ -124,7 +125,7 @@ def _digest(fl):
 
 
 def write_replay(prop, tier, fl):
-    d = os.path.join(HERE, 'replays', prop)
+    d = os.path.join(OUT, 'replays', prop)
     os.makedirs(d, exist_ok=True)
     path = os.path.join(d, '%s.json' % _digest(fl))
     with open(path, 'w') as f:
@@ -262,8 +263,8 @@ def run(prop, tier):
           'wall_s': round(wall, 3), 'violations': len(new) + max(0, total_fail - stored)}
     cov['known_findings_hit'] = sorted(hit)
     cov['harness_errors'] = len(harness)
-    os.makedirs(os.path.join(HERE, 'evidence'), exist_ok=True)
-    with open(os.path.join(HERE, 'evidence', '%s.json' % prop), 'w') as f:
+    os.makedirs(os.path.join(OUT, 'evidence'), exist_ok=True)
+    with open(os.path.join(OUT, 'evidence', '%s.json' % prop), 'w') as f:
         json.dump(ev, f, indent=1, sort_keys=True, default=str)
 
     print('%s %s: %d sub-checks, %d cases, %d evaluations, %d non-trivial, %.1fs, seed %d' % (
